@@ -101,7 +101,7 @@ func init() {
 			case smt.Sat:
 				// report from the caller's position
 				in.reportAssert(id, "assertion "+id+" can fail", m)
-				if cnd.IsFalse() {
+				if cnd.IsFalse() || in.sol.CheckAssuming(cnd) == smt.Unsat {
 					panic(pathEnd{"assertion failed on whole path"})
 				}
 				in.assume(cnd)
